@@ -15,8 +15,11 @@ import random
 from . import common, storage_driver as sd, tlc
 from . import thread_sched as ts
 
+# preemption points: every source line of the storage layer AND of the standard library's copy module, because the storages
+# hand out snapshots through copy.copy / copy.deepcopy and a copy running outside the lock is interruptible element by element
 FILES = ("optuna/storages/_in_memory.py", "optuna/storages/journal/_storage.py", "optuna/storages/_cached_storage.py",
          "optuna/storages/_base.py")
+FILES_COPY = FILES + ("/copy.py",)      # used for the snapshot-reader x multi-write pairs (mode "dense")
 
 DF0 = {"c": "float", "g": 0, "k": 0}
 DI0 = {"c": "int", "g": 0, "k": 0}
@@ -66,7 +69,20 @@ def _alphabet(w):
         [{"a": "delete_study", "s": 1}],
         [{"a": "get_study_ua", "s": 1}],
         [{"a": "get_best_trial", "s": 1}],
+        # two writes of one worker to an EARLIER and then a LATER trial: a reader that is interrupted while it copies the
+        # list must not return the second write without the first
+        [{"a": "set_trial_ua", "t": 1, "key": "k2", "v": w}, {"a": "set_trial_sa", "t": 2, "key": "k1", "v": w}],
+        [{"a": "set_iv", "t": 1, "step": "7", "v": w}, {"a": "set_state", "t": 2, "state": "RUNNING", "values": sd.NONE_V}],
     ]
+
+
+def priority_pairs(kind):
+    """pairs that are always run with EVERY preemption point, also in the quick tier: snapshot readers x multi-write programs"""
+    al = alphabet(1, kind)
+    readers = [i for i, p in enumerate(al) if p[0]["a"] in ("get_all_trials", "get_trial", "get_best_trial")]
+    multi = [i for i, p in enumerate(al) if len(p) == 2 and not p[0]["a"].startswith("create")]
+    pairs = [(r, m) for r in readers for m in multi]
+    return pairs[:2] if kind == "cached_rdb_threads" else pairs
 
 
 _CLOSERS = []
@@ -126,9 +142,9 @@ def make_storages(kind, sched):
     raise ValueError(kind)
 
 
-def execute(kind, programs, choose_factory, sched=None, group=None):
+def execute(kind, programs, choose_factory, sched=None, group=None, files=None):
     """one execution: sequential set-up, then the workers' programs under the scheduler; returns the trace."""
-    sched = sched or ts.Scheduler(FILES)
+    sched = sched or ts.Scheduler(files or FILES)
     storages, observer = group if group is not None else make_storages(kind, sched)
     rp0 = sd.Replayer(storages[0])
     raw_events = []          # (e, w, op, raw reply or None)
@@ -404,12 +420,18 @@ def _pair_task(args):
     A, B = alphabet(1, kind)[ia], alphabet(2, kind)[ib]
     out = []
     # dry run: how many yield points does A have when it runs first?
-    t = execute(kind, [A, B], preempt_at(10 ** 9))
+    files = FILES_COPY if mode == "dense" else FILES
+    t = execute(kind, [A, B], preempt_at(10 ** 9), files=files)
     n = t["lines"][0] + 2
-    points = range(0, n + 1) if mode == "all" else sorted(set(random.Random(ia * 100 + ib).sample(range(0, n + 1), min(n + 1, 8))))
+    if mode == "all":
+        points = range(0, n + 1)
+    elif mode == "dense":      # the copy of a list of trials is hundreds of lines long: about 40 evenly spread points
+        points = range(0, n + 1, max(1, n // 40))
+    else:
+        points = sorted(set(random.Random(ia * 100 + ib).sample(range(0, n + 1), min(n + 1, 8))))
     for i in points:
-        t = execute(kind, [A, B], preempt_at(i))
-        t["replay"] = {"family": "pair", "kind": kind, "a": ia, "b": ib, "i": i}
+        t = execute(kind, [A, B], preempt_at(i), files=files)
+        t["replay"] = {"family": "pair", "kind": kind, "a": ia, "b": ib, "i": i, "dense": int(mode == "dense")}
         out.append(t)
     return out
 
@@ -522,6 +544,8 @@ def run(ctx):
                 if ctx.quick and (ia * 7 + ib * 3 + ctx.seed) % (12 if kind == "cached_rdb_threads" else 6) != 0:
                     continue
                 tasks.append((kind, ia, ib, "sample" if ctx.quick else "all"))
+        for ia, ib in priority_pairs(kind):
+            tasks.append((kind, ia, ib, "dense"))
     traces = []
     with cf.ProcessPoolExecutor(max_workers=16) as ex:
         for res in ex.map(_pair_task, tasks, chunksize=4):
@@ -563,7 +587,7 @@ def replay(ctx, data):
     r = data["replay"]
     if r["family"] == "pair":
         A, B = alphabet(1, r["kind"])[r["a"]], alphabet(2, r["kind"])[r["b"]]
-        t = execute(r["kind"], [A, B], preempt_at(r["i"]))
+        t = execute(r["kind"], [A, B], preempt_at(r["i"]), files=FILES_COPY if r.get("dense") else FILES)
     elif r["family"] == "random":
         t = _random_task((r["kind"], r["seed"], r["index"] + 1))[r["index"]]
     elif r["family"] == "procs":
